@@ -527,6 +527,14 @@ fn main() {
             for (k, v) in subst {
                 l = l.replace(&format!("${}", k), v);
             }
+            // `@FMTID("literal")` -> the id N9 gives that format string
+            while let Some(pos) = l.find("@FMTID(\"") {
+                let rest = &l[pos + 8..];
+                let end = rest.find("\")").unwrap_or_else(|| die("template", "unterminated @FMTID"));
+                let lit = &rest[..end];
+                let id = norm::fmt_id(lit);
+                l = format!("{}{}u64{}", &l[..pos], id, &rest[end + 2..]);
+            }
             if let Some(inc) = l.trim().strip_prefix("//@ include ") {
                 let mut it = inc.split_whitespace();
                 let f = it.next().unwrap_or("");
